@@ -207,7 +207,7 @@ TEXTS = {
                 "generated ontology, and by evaluating spec_C10 (incl. the name lookups) on the crate's observation. Sub-check C10m does the "
                 "same sweep on an ontology of more than 65 536 terms (beyond a 16-bit slot index), which the model builds through block forms "
                 "proved equal to the call-by-call Builder transcription (C10_many_terms_block_is_calls, C10_connect_without_links, "
-                "C10_many_terms_script).",
+                "C10_many_terms_script). RECORD LOOKUPS (C10_record_by_id, C10_gene_by_symbol, C10_disease_name_search_exact, C10_first_disease_by_name, C10_contains_is_infix): lookup by id returns the record with that id or nothing exists; gene_by_name a gene with exactly that symbol or none exists; the name search exactly the diseases whose name contains the query as a byte string.",
         "design_ref": "DESIGN.md §4 C10", "note": NOTE_COMMON + "str::contains modelled as byte-level infix.", "technique": TECH,
     },
     "C11": {
@@ -282,7 +282,7 @@ TEXTS = {
                 "exactly the added and removed parents (terms) and the old/new values; (b) about the Gallina transcription of comparison.rs, "
                 "for ALL ontologies: added characterised, swapping arguments swaps added with removed, comparing a well-formed ontology with "
                 "itself yields the empty report. The crate's reports for compare(old,new), compare(new,old), compare(old,old) and "
-                "compare(old, reload(old)) are checked against the reference, against the swap, and diffed against the transcription.",
+                "compare(old, reload(old)) are checked against the reference, against the swap, and diffed against the transcription. ROUND TRIP (C18_builder_roundtrip_compares_equal, C18_jax_roundtrip_compares_equal, via C18_model_compare_equivalent_empty and the C07 theorems): comparing a Builder-built or JAX-loaded ontology with what from_bytes returns for its as_bytes output yields the empty report, for any record order in the file, when term and gene names fit the one-byte length field.",
         "design_ref": "DESIGN.md §4 C18", "note": NOTE_COMMON, "technique": TECH,
     },
     "C20": {
